@@ -10,6 +10,10 @@ pptx.oxml.parse_xml really recovers from every template with the slot filled, ov
 strings -> oracle = the property's statement on the implementation: every string-accepting
 entry point x strings biased to markup: call succeeds, reader returns the string, element
 count as for a benign string, the same after save + re-open.
+
+libxml2's blank-text removal (remove_blank_text=True of pptx.oxml) is part of the model (lex_text of
+model/Escape.v): no comparison is skipped; the evidence counts the compared cases in which the heuristic
+dropped something (model reading differs from the conformant reading, runner op slot0).
 """
 import io
 import json
@@ -27,14 +31,15 @@ sys.path.insert(0, os.path.join(VERIF, "tx"))
 TB = [
     "tx/tx_c05.py (translator: AST scan of every %-format / str.format / f-string whose template is XML, template lexer, local dataflow for escape(); cross-validated on every run by instantiating each template with markers and parsing it with lxml, by a marker run through the public entry points (taint), and by a second run with metacharacters that shows the escaping each reached hole really applies)",
     "the enumeration of public string-accepting entry points (build_entry_points in tx/tx_c05.py): a hole that no enumerated entry point reaches with caller text is classified as a library-made value only if it was exercised and every expression it can receive through the package's call sites is literal text, an integer, or listed in LIBRARY_MADE of tx/tx_c05.py (observed values recorded in the evidence)",
-    "libxml2 as configured by pptx.oxml.parse_xml is represented by the slot lexers of model/Escape.v (AttValue, CharData, references, line-end and attribute-value normalisation); tied by the per-sink and the grid correspondence, not verified",
+    "libxml2 as configured by pptx.oxml.parse_xml (in-memory UTF-8 document) is represented by the slot lexers of model/Escape.v (AttValue, CharData, references, CDATA sections, line-end and attribute-value normalisation, and the blank-text removal heuristic of remove_blank_text=True: areBlanks over the chunks of xmlParseCharData's fast path and the 300-byte buffer of its slow path); tied by the per-sink and the grid correspondence (escaped, raw, CDATA-bearing and 300-byte-boundary payloads), not verified",
     "lxml attribute / text assignment (the third kind of sink) escapes on serialisation: trusted, exercised by the oracle's save + re-open on every case",
 ]
 ASSUME = [
     "strings are over the XML 1.0 Char production; code points XML cannot carry are refused by lxml (ValueError) and are outside the quantifier",
     "TAB, LF, CR written literally into an attribute value are normalised to blanks by any XML parser, CR in element text to LF (theorems *_norm state exactly that): the decision table therefore demands the character references for them (C05_attr_safe_ws, C05_text_safe_cr) and the oracle judges strings with TAB / LF / CR at every entry point except the text-frame setters, whose control-character translations are property C04's",
     "values substituted with an integer conversion, constants, enumeration tokens and library-made names / relationship ids are assumed free of markup metacharacters and of TAB / LF / CR (hypotheses plain s, no_ws_ctl s of C05_all_sinks for NotText sinks)",
-    "libxml2's blank-text removal (remove_blank_text=True) drops a leading white-space run directly followed by a bare CR inside element text: outside the model (strings with C0 controls only; such cases are counted as blank-text-heuristic-skipped)",
+    "libxml2's blank-text removal (remove_blank_text=True) is INSIDE the model: element text written with an escaping that leaves CR raw is read back as blank_drop_normalise s (C05_text_safe_norm; characterised by C05_blank_drop_no_cr / _suffix / _keeps_nonblank; real by C05_text_sax_blank_refuted), and it cannot fire where CR is written as a reference (C05_text_no_raw_cr_conformant + C05_escaped_cr_no_raw; instance C05_text_sinks_heuristic_off over the sink table); the correspondence compares such strings like every other (counter blank-heuristic-exercised) and the oracle demands the exact string back at every entry point",
+    "the template slot is the whole content of its element (the value is followed by the end tag): true of every text sink on the current tree (per-sink correspondence on the real templates)",
     "caller text that is only a part of an attribute value, single-quoted attribute values, and substitutions into tag or attribute names would be unmodelled (none on the current tree)",
 ]
 
@@ -52,13 +57,31 @@ CORE = (["plain", "two words", "\xe9\u4e2d\U0001F600"]
 
 WS_CORE = ["a\tb", "a\nb", "a\rb", "a\r\nb", "\tlead", "trail\n", "a\tb\nc\rd", "x \r y", "\r", "\n", "\t", "a\n\rb", "R&D\t\"q\"\r\n<x>"]
 WS_PIECES = ["\t", "\n", "\r", "\r\n"]
+# strings on which libxml2's blank-text heuristic fires when the CR reaches the parser raw: leading blanks
+# before a CR, CR LF sequences, CR LF before a non-ASCII character
+BLANK_CR_CORE = [" \rX", "\r\n\t\r\nX", "\r\n\t\r\n\U00010328\u01eb", " \r", "\t\r\nX", "\n\rX", " \r\n\xe9", "\r\n\r X", "\r\n \rX",
+                 "  \r\n  \r\nend", "\r\r\nX", " \t\n\r<x>", "\n \r&", " \r\n]]>", "\r\n\xe9", "\r \r \rX", " \r\"q\"", "\n\r\n "]
+BLANK_PIECES = [" ", "\t", "\n", "\r", "\r\n", "\r", "\r\n", "  "]
+BLANK_TAILS = ["", "X", "\xe9", "\U00010328\u01eb", "&", "<x>", "]]>", "a b", "\"", "\x7f", "&#13;", "\u4e2d\r\n", "x\r y"]
+
+
+def gen_blank_cr(rng, n):
+    out = []
+    for _ in range(n):
+        pre = "".join(rng.choice(BLANK_PIECES) for _ in range(rng.randint(1, 6)))
+        if "\r" not in pre:
+            pre += rng.choice(["\r", "\r\n"])
+        out.append(pre + rng.choice(BLANK_TAILS))
+    return out
 
 
 def gen_strings(rng, n_random, dom, ws=False):
     """ws: also strings with TAB / LF / CR (every entry point except the text-frame setters, whose
     control-character translations are property C04's)."""
-    out = list(CORE) + (list(WS_CORE) if ws else [])
+    out = list(CORE) + (list(WS_CORE) + list(BLANK_CR_CORE) if ws else [])
     pieces = META_PIECES + PLAIN_PIECES + (WS_PIECES * 4 if ws else [])
+    if ws:
+        out += gen_blank_cr(rng, max(6, n_random // 6))
     for _ in range(n_random):
         k = rng.randint(1, 6)
         s = "".join(rng.choice(pieces) if rng.random() < 0.8 else chr(rng.choice([rng.randint(0x20, 0x7E), rng.randint(0xA0, 0x2FF), rng.randint(0x10000, 0x10FFF)]))
@@ -100,6 +123,13 @@ def esc_code(applied):
     if applied in (None, "none"):
         return "0"
     return chr(65 + sum(b for b, f in zip((8, 4, 2, 1), "qtlr") if f in applied[3:]))
+
+
+def applied_of_code(code):
+    """inverse of esc_code"""
+    if code in "03":
+        return "none"
+    return "sax" + "".join(f for b, f in zip((8, 4, 2, 1), "qtlr") if (ord(code) - 65) & b)
 
 
 def py_escape(applied, s):
@@ -288,14 +318,10 @@ def ensure_runner(ck):
     return os.path.exists(exe)
 
 
-def nobl_quirk(ctx_code, s):
-    """libxml2 with remove_blank_text drops a leading white-space run that is directly followed by a bare
-    carriage return (blank-text heuristic); not modelled, strings with C0 controls only."""
-    if ctx_code != "t":
-        return False
-    if "<![CDATA[" in s and any(c in s for c in " \t\n\r"):
-        return True      # a white-space-only chunk next to a CDATA section may be dropped as well
-    return "\r" in s and s[:1] in (" ", "\t", "\n")
+def raw_cr_or_lt(payload):
+    """Only content with a raw CR or a raw less-than sign can make libxml2's blank-text heuristic fire
+    (C05_text_no_raw_cr_conformant): for these the model is also asked for the conformant reading."""
+    return "\r" in payload or "<" in payload
 
 
 # ----------------------------------------------------------------------------- diagnostics
@@ -420,6 +446,22 @@ def _run_rest(ck, tier, rng, T, meta, sinks, by_id, scratch):
     for _ in range(2500 if quick else 20000):
         malformed.append("".join(rng.choice(raw_pieces) for _ in range(rng.randint(1, 5))))
     malformed += ["\t", "\n", "\r", "\r\n", "a\r\nb", "a\rb", "a\r\r\nb", "\n\r", "a\tb\nc\rd", " ", "  ", ""]
+    # raw content around the blank-text heuristic: blanks next to CDATA sections and references, CR / CR LF runs
+    blank_raw_pieces = [" ", "\t", "\n", "\r", "\r\n", " ", "\r", "<![CDATA[x]]>", "<![CDATA[]]>", "<![CDATA[ ]]>", "&#13;", "&#32;", "&amp;", "a", "\xe9", "]]>", "]", "\x7f"]
+    malformed += [" <![CDATA[x]]>", "<![CDATA[x]]> ", "<![CDATA[]]> <![CDATA[x]]>", "<![CDATA[]]> \rX", " \r<![CDATA[ ]]> ", "&#32; \rX", " &#32;\rX",
+                  " <![CDATA[]]>", " <![CDATA[]]> \r", "\r\n<![CDATA[x]]>", "\r\n\r<![CDATA[x]]>", " \r\n&#13;"]
+    for _ in range(600 if quick else 6000):
+        malformed.append("".join(rng.choice(blank_raw_pieces) for _ in range(rng.randint(1, 7))))
+    # the 300-byte buffer of the slow path: a blank run after a bare CR (or CR LF CR), cut at 300 bytes, is dropped
+    # when the next character is a CR or opens a CDATA section
+    long_blank = []
+    for k in (297, 298, 299, 300, 598, 599):
+        for head in ("\r", "\r\n\r", " \r"):
+            for tail in ("\rX", "\r\nX", "X", "", "<![CDATA[x]]>", "&amp;", " \rX"):
+                long_blank.append(head + " " * k + tail)
+    for _ in range(20 if quick else 300):
+        run = "".join(rng.choice([" ", "\t", "\n", "\r\n", "\r"]) if rng.random() < 0.03 else " " for _ in range(rng.randint(285, 310)))
+        long_blank.append(rng.choice(["", " ", "\r", "\r\n", " \r", "\n\r\n", "\r\n\r"]) + run + rng.choice(["\rX", "X", "\r\n\xe9", "<![CDATA[q]]>", "&#9;", "", "\r"]))
     # (a) escape functions
     for s in grid_strings:
         for e, ap in GRID_ESC[1:]:
@@ -427,10 +469,13 @@ def _run_rest(ck, tier, rng, T, meta, sinks, by_id, scratch):
             expect.append(("esc", e, s, " ".join(str(ord(c)) for c in py_escape(ap, s))))
     # (b) the two slot lexers on a minimal template, escaped and raw
     bases = {c: probe_outcome(GRID[c], "x")[2] for c in "at"}
-    for s in grid_strings + malformed:
+    malformed_set = set(malformed)
+    for s in grid_strings + malformed + long_blank:
         for c in "at":
             for e, ap in GRID_ESC:
-                if s in malformed and e != "0" and rng.random() < 0.6:
+                if len(s) > 200 and (c, e) not in (("t", "0"), ("t", "A"), ("t", "B"), ("a", "P")):
+                    continue
+                if s in malformed_set and e != "0" and rng.random() < 0.6:
                     continue
                 payload = py_escape(ap, s)
                 r = probe_outcome(GRID[c], payload, bases[c])
@@ -465,11 +510,30 @@ def _run_rest(ck, tier, rng, T, meta, sinks, by_id, scratch):
             n_sink_cases += 1
     diffs, first = 0, None
     model_out = None
+    # element-text cases whose content holds a raw CR or a raw less-than sign: the model is also asked for the
+    # conformant reading (slot0); the blank-text heuristic was exercised where the two readings differ
+    aux = {}
+    n_main = len(cases)
+    for idx in range(n_main):
+        cs = cases[idx]
+        if cs[0] == "slot" and cs[1] == "t":
+            q = ["slot0", "t", cs[2], cs[3]]
+            payload = py_escape(applied_of_code(cs[2]), cs[3])
+        elif cs[0] == "multi":
+            q = ["slot0", "t", "A", cs[4]]
+            payload = py_escape("sax", cs[4])
+        else:
+            continue
+        if raw_cr_or_lt(payload):
+            aux[idx] = len(cases)
+            cases.append(q)
     if have_model:
         try:
             model_out = run_model("C05", cases)
         except Exception as e:  # noqa
             ck.notes.append("model runner unavailable: %r" % e)
+    n_heur = n_heur_sink = 0
+    heur_samples = []
     for idx, ex in enumerate(expect):
         kind = ex[0]
         sval = ex[2] if isinstance(ex[2], str) else "".join(ex[2])
@@ -477,9 +541,15 @@ def _run_rest(ck, tier, rng, T, meta, sinks, by_id, scratch):
         if model_out is None:
             continue
         mo = model_out[idx]
-        if kind in ("slot", "sink") and nobl_quirk(cases[idx][1], sval) or kind == "multi" and nobl_quirk("t", ex[2][1]):
-            ck.dist["blank-text-heuristic-skipped"] = ck.dist.get("blank-text-heuristic-skipped", 0) + 1
-            continue
+        if idx in aux:
+            m1 = mo.split("|")[1] if kind == "multi" and mo.count("|") == 2 else mo
+            if m1 != model_out[aux[idx]]:
+                n_heur += 1
+                n_heur_sink += kind == "sink"
+                ck.dist["blank-heuristic-exercised"] = ck.dist.get("blank-heuristic-exercised", 0) + 1
+                if len(heur_samples) < 6 and len(sval) < 60:
+                    heur_samples.append({"kind": kind, "slot": ex[1], "string": ex[2] if kind != "multi" else ex[2][1], "model": m1, "conformant_reading": model_out[aux[idx]],
+                                         "impl": list((ex[3][1] if kind == "multi" else ex[3])[:2])})
         if kind == "esc":
             same = mo.strip() == ex[3].strip()
         elif kind == "multi":
@@ -571,7 +641,11 @@ def _run_rest(ck, tier, rng, T, meta, sinks, by_id, scratch):
                "marker_instantiations_checked": meta["n_marker_checked"], "parse_xml_call_sites": meta["n_parse_xml_calls"],
                "whitespace_strings_judged_at": [e.key for e in eps if not e.c04],
                "text_frame_setters_without_control_characters": [e.key for e in eps if e.c04],
-               "correspondence_diffs": diffs, "exhaustive": False})
+               "correspondence_diffs": diffs,
+               "blank_text_heuristic": {"compared_cases_where_it_fired": n_heur, "of_them_on_real_sink_templates": n_heur_sink,
+                                        "cases_with_raw_cr_or_lt_in_element_text": len(aux), "skipped": 0, "samples": heur_samples,
+                                        "text_sinks_that_leave_cr_raw": [s_["sig"] for s_ in sinks if s_["ctx"] == "Text" and s_["origin"] == "caller text" and "r" not in (s_["applied"] or "none")[3:]]},
+               "exhaustive": False})
 
 
 def _account(ck, ep, outs, per_ep, failures):
@@ -625,8 +699,8 @@ def replay(rec):
 
 
 CLAIM = {
-    "tech": "Coq proof: saxutils.escape with any sub-dictionary of quote / TAB / LF / CR and an XML slot lexer (double-quoted attribute value with attribute-value normalisation, element text with line-end handling, references, CDATA sections) in Gallina; theorems for all strings of XML characters; verified decision table sink_ok (the slot gives back exactly the string) evaluated by vm_compute over the template sinks re-extracted from /repo each run; marker / taint / escaping cross-validation of the translator; per-sink correspondence with the real parser; API-level oracle with save + re-open",
-    "text": "19 theorems closed under the global context: escape(data, entities) (successive replace passes) equals the per-character substitution for every sub-dictionary; escaped text is read back as exactly one text node / one attribute value: with the quote, TAB, LF and CR written as references an attribute gives back EVERY string (C05_attr_safe_ws, no guard), text with CR as a reference gives back every string (C05_text_safe_cr); with the shorter dictionaries the parser's normalisation is stated exactly (*_norm) and the exact string holds for strings without TAB/LF/CR; escape without the quot entity is refuted inside attributes, no escaping is refuted (ampersand, less-than); the CDATA-end sequence is rejected in character data and cannot occur after escaping; the decision table is sound and exact (every rejected combination has a witness: quote, TAB, LF or CR in an attribute, CR in text), and the weaker markup table guarantees the slot is never broken. Instance C05_all_sinks: every hole of every XML template of src/pptx (61 templates, ~140 holes, found by an AST scan of all %-format / str.format / f-string expressions and cross-validated by marker instantiation, a taint run and a run with metacharacters) either gives back exactly the caller's string or receives a value that is not caller text; rejected sinks are listed by diag/Diag_C05.v and replayed through the public entry point that reaches them (signatures sink: / attr-ws-normalised: / text-cr-normalised:). The model is tied to the implementation by running saxutils.escape and pptx.oxml.parse_xml on a minimal template and on every real template over the same strings, and the oracle runs every enumerated string-accepting entry point (names, file names, hyperlinks, chart names / labels / number formats, fonts, prog-ids, core properties, text) on markup- and white-space-biased strings over the XML Char production incl. save + re-open.",
-    "note": "translator tx_c05 and the entry-point enumeration are trusted (cross-validated each run); 'library-made' holes are classified by observation over that enumeration plus call-site analysis against a table; libxml2 is modelled by the slot lexers (correspondence, not proof; its blank-text heuristic is outside the model); lxml attribute/text assignment is the trusted third kind of sink, exercised by save + re-open; text-frame setters are run without control characters (their translations are property C04's).",
+    "tech": "Coq proof: saxutils.escape with any sub-dictionary of quote / TAB / LF / CR and an XML slot lexer (double-quoted attribute value with attribute-value normalisation; element text with line-end handling, references, CDATA sections and libxml2's blank-text removal heuristic -- areBlanks over the chunks of xmlParseCharData, fast path and 300-byte slow-path buffer) in Gallina; theorems for all strings of XML characters; verified decision table sink_ok (the slot gives back exactly the string) evaluated by vm_compute over the template sinks re-extracted from /repo each run; marker / taint / escaping cross-validation of the translator; per-sink correspondence with the real parser; API-level oracle with save + re-open",
+    "text": "27 theorems closed under the global context: escape(data, entities) (successive replace passes) equals the per-character substitution for every sub-dictionary; escaped text is read back as exactly one text node / one attribute value: with the quote, TAB, LF and CR written as references an attribute gives back EVERY string (C05_attr_safe_ws, no guard), text with CR as a reference gives back every string (C05_text_safe_cr) because no raw CR or less-than sign reaches the parser and libxml2's blank-text heuristic then cannot fire (C05_escaped_cr_no_raw, C05_text_no_raw_cr_conformant); with the shorter dictionaries what the parser hands back is stated exactly: attribute-value normalisation (C05_attr_safe_norm) and, for element text, blank_drop_normalise (C05_text_safe_norm: line-end handling plus the blank chunks libxml2 drops before a CR), characterised by C05_blank_drop_no_cr (no CR: unchanged), C05_blank_drop_suffix (only a leading all-blank part is lost, the part read starts at a CR), C05_blank_drop_keeps_nonblank, C05_blank_drop_length, and shown real by C05_text_sax_blank_refuted (blank CR X reads LF X although a conformant parser returns blank LF X: C05_text_conf_norm); escape without the quot entity is refuted inside attributes, no escaping is refuted (ampersand, less-than); the CDATA-end sequence is rejected in character data and cannot occur after escaping; the decision table is sound and exact (every rejected combination has a witness: quote, TAB, LF or CR in an attribute, CR in text), and the weaker markup table guarantees the slot is never broken. Instance C05_all_sinks: every hole of every XML template of src/pptx (61 templates, ~140 holes, found by an AST scan of all %-format / str.format / f-string expressions and cross-validated by marker instantiation, a taint run and a run with metacharacters) either gives back exactly the caller's string or receives a value that is not caller text; instance C05_text_sinks_heuristic_off: at no element-text sink can the blank-text heuristic fire; rejected sinks are listed by diag/Diag_C05.v and replayed through the public entry point that reaches them (signatures sink: / attr-ws-normalised: / text-cr-normalised:). The model is tied to the implementation by running saxutils.escape and pptx.oxml.parse_xml on a minimal template and on every real template over the same strings (incl. leading blanks before CR, CR LF runs, CR before non-ASCII, blanks next to CDATA sections and references, blank runs across the 300-byte buffer; no case is skipped, evidence counter blank_text_heuristic), and the oracle runs every enumerated string-accepting entry point (names, file names, hyperlinks, chart names / labels / number formats, fonts, prog-ids, core properties, text) on markup- and white-space-biased strings over the XML Char production incl. save + re-open.",
+    "note": "translator tx_c05 and the entry-point enumeration are trusted (cross-validated each run); 'library-made' holes are classified by observation over that enumeration plus call-site analysis against a table; libxml2 is modelled by the slot lexers, blank-text heuristic included (correspondence, not proof; documents parsed from an in-memory UTF-8 buffer, slot = whole element content); lxml attribute/text assignment is the trusted third kind of sink, exercised by save + re-open; text-frame setters are run without control characters (their translations are property C04's).",
     "ref": "6/C05",
 }
